@@ -9,6 +9,8 @@
 namespace sim {
 
 static const long kMaxRestartsForVerdict = 20;
+// the drift grows by a constant factor per restart whatever the precision: relative to eps it shows earlier in long double
+static const long kMaxRestartsForVerdictLD = 8;
 
 static int outcome_class(const Op& op, const OpRecord& rec)
 {
@@ -85,7 +87,8 @@ RunOutput run_hist(const Plan& plan, const RunOpts& o)
     const TaskSpec& task = plan.tasks.at(0);
     const WorldSpec& spec = task.w;
     const std::string& prop = plan.prop;
-    const Calib& calib = Calib::get(spec.family);
+    const int cgroup = (spec.mclass == M_LOWRANK) ? 1 : 0;
+    const Calib& calib = Calib::get(spec.family, cgroup);
     Hasher shape;
     shape.u64((uint64_t) spec.family);
     out.stats.add(std::string("family.") + family_name(spec.family));
@@ -121,6 +124,7 @@ RunOutput run_hist(const Plan& plan, const RunOpts& o)
         obs.lanczos = family_symmetric_like(spec.family);
         obs.identity_ip = !(spec.family == F_GREGINV || spec.family == F_GSHIFTINV || spec.family == F_GBUCK || spec.family == F_GCAYLEY);
         obs.calib = &calib;
+        obs.max_restarts = (spec.scalar == S_LDOUBLE) ? kMaxRestartsForVerdictLD : kMaxRestartsForVerdict;
         obs.general = family_is_general(spec.family) && !(plan.params.has("no_regime_skip") && plan.params.at("no_regime_skip").as_bool());
         obs.out = &out.viol;
         alpha->ctx.observer = &obs;
@@ -192,7 +196,7 @@ RunOutput run_hist(const Plan& plan, const RunOpts& o)
             // The general (Arnoldi) solvers of the pinned tree lose the orthonormality of the basis over many
             // implicit restarts (known finding KF-arnoldi-restart-drift): numeric clauses give a verdict only
             // while at most 20 restarts happened since init()
-            const bool numeric_regime = no_regime_skip || !(family_is_general(spec.family) && rec.restarts_since_init > kMaxRestartsForVerdict);
+            const bool numeric_regime = no_regime_skip || !(family_is_general(spec.family) && rec.restarts_since_init > (spec.scalar == S_LDOUBLE ? kMaxRestartsForVerdictLD : kMaxRestartsForVerdict));
             if (!numeric_regime) out.stats.add("numeric.skipped_known_regime");
             if (numeric_on && numeric_regime)
             {
@@ -335,18 +339,18 @@ RunOutput run_hist(const Plan& plan, const RunOpts& o)
     {
         out.stats.add("pairs_checked", nst.pairs);
         out.stats.add("pairs_degenerate_shift", nst.degenerate);
-        out.stats.max("ratio.residual_over_tolterm" + std::string(".") + family_name(spec.family), (double) nst.max_ratio_tol);
-        out.stats.max("ratio.excess_over_rounding_unit" + std::string(".") + family_name(spec.family), (double) nst.max_ratio_round);
-        out.stats.max("ratio.norm_over_unit" + std::string(".") + family_name(spec.family), (double) nst.max_ratio_norm);
-        out.stats.max("ratio.orth_over_unit" + std::string(".") + family_name(spec.family), (double) nst.max_ratio_orth);
+        out.stats.max("ratio.residual_over_tolterm" + std::string(cgroup ? ".lowrank." : ".") + family_name(spec.family), (double) nst.max_ratio_tol);
+        out.stats.max("ratio.excess_over_rounding_unit" + std::string(cgroup ? ".lowrank." : ".") + family_name(spec.family), (double) nst.max_ratio_round);
+        out.stats.max("ratio.norm_over_unit" + std::string(cgroup ? ".lowrank." : ".") + family_name(spec.family), (double) nst.max_ratio_norm);
+        out.stats.max("ratio.orth_over_unit" + std::string(cgroup ? ".lowrank." : ".") + family_name(spec.family), (double) nst.max_ratio_orth);
     }
     if (observe)
     {
         for (int k = 0; k < CK_COUNT; k++) out.stats.add(std::string("krylov.checked.") + checkpoint_name(k), obs.stats.checked[k]);
         out.stats.add("krylov.breakdowns", obs.stats.breakdowns);
-        out.stats.max("ratio.krylov_factorization" + std::string(".") + family_name(spec.family), (double) obs.stats.max_fac);
-        out.stats.max("ratio.krylov_orthonormality" + std::string(".") + family_name(spec.family), (double) obs.stats.max_orth);
-        out.stats.max("ratio.krylov_vf" + std::string(".") + family_name(spec.family), (double) obs.stats.max_vf);
+        out.stats.max("ratio.krylov_factorization" + std::string(cgroup ? ".lowrank." : ".") + family_name(spec.family), (double) obs.stats.max_fac);
+        out.stats.max("ratio.krylov_orthonormality" + std::string(cgroup ? ".lowrank." : ".") + family_name(spec.family), (double) obs.stats.max_orth);
+        out.stats.max("ratio.krylov_vf" + std::string(cgroup ? ".lowrank." : ".") + family_name(spec.family), (double) obs.stats.max_vf);
         if (!ref.op_independent) out.stats.add("krylov.op_from_wrappers");
         out.stats.add("krylov.skipped_known_regime", obs.skipped_known_regime);
     }
